@@ -1,7 +1,4 @@
-import Dbus.Model.Message
-import Dbus.Model.Encode
-import Dbus.Model.Bus.Match
-import Dbus.Model.Bus.Policy
+import Dbus.Model.Bus.Registry
 /-
   Executable model of the message bus: bus/dispatch.c (`bus_dispatch`, `bus_dispatch_matches`),
   bus/driver.c (the org.freedesktop.DBus methods), bus/services.c (name registry and owner
@@ -13,151 +10,6 @@ import Dbus.Model.Bus.Policy
 -/
 namespace Dbus.Model.Bus
 open Dbus Dbus.Spec Dbus.Model
-
-abbrev ConnId := Nat
-
-structure Owner where
-  conn : ConnId
-  allowRepl : Bool
-  noQueue : Bool
-  deriving DecidableEq, Repr, Inhabited
-
-structure Service where
-  name : Bytes
-  owners : List Owner          -- head = primary owner; never empty while registered
-  deriving Repr, Inhabited
-
-structure Pending where
-  caller : ConnId              -- will_get_reply
-  callee : ConnId              -- will_send_reply
-  serial : Nat
-  deriving DecidableEq, Repr, Inhabited
-
-structure Conn where
-  id : ConnId
-  uid : Nat
-  gids : List Nat := []
-  name : Option Bytes := none  -- unique name; none until Hello succeeds
-  owned : List Bytes := []     -- services_owned: names whose queue holds this connection, in joining order
-  rules : List MatchRule := [] -- oldest first
-  canFd : Bool := true         -- unix fd passing negotiated
-  monitor : Bool := false
-  monitorRules : List MatchRule := []
-  policy : List PRule := []    -- BusClientPolicy, fixed at Hello
-  deriving Inhabited
-
-structure Limits where
-  maxNames : Nat := 512             -- max_names_per_connection (counts the unique name)
-  maxRules : Nat := 512             -- max_match_rules_per_connection
-  maxCompleted : Nat := 2048        -- max_completed_connections
-  maxPerUser : Nat := 256           -- max_connections_per_user
-  maxReplies : Nat := 128           -- max_replies_per_connection
-  maxFdsDefault : Nat := 16         -- DBUS_MAXIMUM_MESSAGE_UNIX_FDS
-  deriving Repr, Inhabited
-
-structure Bus where
-  conns : List Conn := []           -- connected clients, in connection order
-  services : List Service := []
-  nextMajor : Nat := 0
-  nextMinor : Nat := 0
-  pending : List Pending := []      -- newest first (`bus_expire_list_add` prepends)
-  limits : Limits := {}
-  policy : Policy := {}
-  deriving Inhabited
-
-inductive Out
-  | deliver (to : ConnId) (m : Msg)
-  | opaque (to : ConnId) (replySerial : Nat)   -- a method return whose body is not modelled
-  | close (c : ConnId)                         -- the bus closes this connection
-  deriving Inhabited
-
-/-! ### byte-string constants (explicit so that they reduce in the kernel) -/
-
-def ascii' (s : String) : Bytes := s.toUTF8.toList
-
-def DBUS_PATH : Bytes := ([0x2f,0x6f,0x72,0x67,0x2f,0x66,0x72,0x65,0x65,0x64,0x65,0x73,0x6b,0x74,0x6f,0x70,0x2f,0x44,0x42,0x75,0x73] : Bytes)
-def NOT_ACTIVE : Bytes := ([0x3a,0x6e,0x6f,0x74,0x2e,0x61,0x63,0x74,0x69,0x76,0x65,0x2e,0x79,0x65,0x74] : Bytes)
-
-inductive Err
-  | failed | nameHasNoOwner | accessDenied | limitsExceeded | invalidArgs | unknownMethod
-  | unknownInterface | matchRuleNotFound | matchRuleInvalid | noReply | notSupported
-  | unknownObject | serviceUnknown | unknownProperty | propertyReadOnly
-  deriving DecidableEq, Repr, Inhabited
-
-def errPrefix : Bytes := ([0x6f,0x72,0x67,0x2e,0x66,0x72,0x65,0x65,0x64,0x65,0x73,0x6b,0x74,0x6f,0x70,0x2e,0x44,0x42,0x75,0x73,0x2e,0x45,0x72,0x72,0x6f,0x72,0x2e] : Bytes)
-
-def Err.name : Err → Bytes
-  | .failed => errPrefix ++ ascii' "Failed"
-  | .nameHasNoOwner => errPrefix ++ ascii' "NameHasNoOwner"
-  | .accessDenied => errPrefix ++ ascii' "AccessDenied"
-  | .limitsExceeded => errPrefix ++ ascii' "LimitsExceeded"
-  | .invalidArgs => errPrefix ++ ascii' "InvalidArgs"
-  | .unknownMethod => errPrefix ++ ascii' "UnknownMethod"
-  | .unknownInterface => errPrefix ++ ascii' "UnknownInterface"
-  | .matchRuleNotFound => errPrefix ++ ascii' "MatchRuleNotFound"
-  | .matchRuleInvalid => errPrefix ++ ascii' "MatchRuleInvalid"
-  | .noReply => errPrefix ++ ascii' "NoReply"
-  | .notSupported => errPrefix ++ ascii' "NotSupported"
-  | .unknownObject => errPrefix ++ ascii' "UnknownObject"
-  | .serviceUnknown => errPrefix ++ ascii' "ServiceUnknown"
-  | .unknownProperty => errPrefix ++ ascii' "UnknownProperty"
-  | .propertyReadOnly => errPrefix ++ ascii' "PropertyReadOnly"
-
-/-! ### message accessors and builders -/
-
-def strOf : Option Val → Option Bytes
-  | some (.str _ s) => some s
-  | _ => none
-
-def natOf : Option Val → Nat
-  | some (.fixed _ n) => n
-  | _ => 0
-
-def _root_.Dbus.Model.Msg.path (m : Msg) : Option Bytes := strOf (getField m.fields FIELD_PATH)
-def _root_.Dbus.Model.Msg.iface (m : Msg) : Option Bytes := strOf (getField m.fields FIELD_INTERFACE)
-def _root_.Dbus.Model.Msg.member (m : Msg) : Option Bytes := strOf (getField m.fields FIELD_MEMBER)
-def _root_.Dbus.Model.Msg.errName (m : Msg) : Option Bytes := strOf (getField m.fields FIELD_ERROR_NAME)
-def _root_.Dbus.Model.Msg.dest (m : Msg) : Option Bytes := strOf (getField m.fields FIELD_DESTINATION)
-def _root_.Dbus.Model.Msg.sender (m : Msg) : Option Bytes := strOf (getField m.fields FIELD_SENDER)
-def _root_.Dbus.Model.Msg.replySerial (m : Msg) : Nat := natOf (getField m.fields FIELD_REPLY_SERIAL)
-def _root_.Dbus.Model.Msg.nFds (m : Msg) : Nat := unixFdsOf m.fields
-def _root_.Dbus.Model.Msg.noReply (m : Msg) : Bool := m.flags % 2 == 1
-def _root_.Dbus.Model.Msg.noAutoStart (m : Msg) : Bool := (m.flags / 2) % 2 == 1
-
-def strField (code : Nat) (s : Bytes) : Field := { code := code, ty := .basic .str, val := .str .str s }
-def pathField (s : Bytes) : Field := { code := FIELD_PATH, ty := .basic .path, val := .str .path s }
-def u32Field (code : Nat) (n : Nat) : Field := { code := code, ty := .basic .u32, val := .fixed .u32 n }
-def sigField (ts : List Ty) : Field := { code := FIELD_SIGNATURE, ty := .basic .sig, val := .str .sig (printList ts) }
-
-def _root_.Dbus.Model.Msg.setField (m : Msg) (f : Field) : Msg := { m with fields := setFieldList m.fields f }
-def _root_.Dbus.Model.Msg.delField (m : Msg) (code : Nat) : Msg := { m with fields := deleteFieldList m.fields code }
-def _root_.Dbus.Model.Msg.setSender (m : Msg) (s : Bytes) : Msg := m.setField (strField FIELD_SENDER s)
-def _root_.Dbus.Model.Msg.setDest (m : Msg) (s : Bytes) : Msg := m.setField (strField FIELD_DESTINATION s)
-def _root_.Dbus.Model.Msg.setNoReply (m : Msg) : Msg := { m with flags := if m.flags % 2 == 1 then m.flags else m.flags + 1 }
-
-def sStr (s : Bytes) : Val := .str .str s
-def tStr : Ty := .basic .str
-def tU32 : Ty := .basic .u32
-
-/-- a message the bus creates (serial assigned at send time by the recipient's connection; 0 here) -/
-def mkMsg (mtype : Nat) (fields : List Field) (tys : List Ty) (body : List Val) : Msg :=
-  { endian := .little, mtype := mtype, flags := 1, version := 1, serial := 0,
-    fields := if tys.isEmpty then fields else fields ++ [sigField tys], bodyTypes := tys, body := body }
-
-/-- `dbus_message_new_method_return (call)` + body -/
-def mkReturn (call : Msg) (tys : List Ty) (body : List Val) : Msg :=
-  mkMsg 2 ([u32Field FIELD_REPLY_SERIAL call.serial] ++
-           (match call.sender with | some s => [strField FIELD_DESTINATION s] | none => [])) tys body
-
-/-- `dbus_message_new_error (in_reply_to, name, text)`; the text is not modelled (`[]`) -/
-def mkError (inReplyTo : Msg) (e : Err) : Msg :=
-  mkMsg 3 ([u32Field FIELD_REPLY_SERIAL inReplyTo.serial, strField FIELD_ERROR_NAME e.name] ++
-           (match inReplyTo.sender with | some s => [strField FIELD_DESTINATION s] | none => []))
-    [tStr] [sStr []]
-
-def mkSignal (member : Bytes) (tys : List Ty) (body : List Val) : Msg :=
-  { mkMsg 4 [pathField DBUS_PATH, strField FIELD_INTERFACE BUS_NAME, strField FIELD_MEMBER member] tys body
-    with flags := 1 }
 
 /-! ### state access -/
 
@@ -340,78 +192,38 @@ def sigAcquired (t : Tx) (to : ConnId) (name : Bytes) : Tx :=
 def sigLost (t : Tx) (to : ConnId) (name : Bytes) : Tx :=
   sendFromDriver t to (mkSignal (ascii' "NameLost") [tStr] [sStr name])
 
-/-! ### bus/services.c -/
+/-! ### bus/services.c on top of the pure queue operations of `Registry` -/
 
 def ownersOf (b : Bus) (n : Bytes) : List Owner := match b.service? n with | some s => s.owners | none => []
-
-def flagAllow (flags : Nat) : Bool := flags % 2 == 1
-def flagReplace (flags : Nat) : Bool := (flags / 2) % 2 == 1
-def flagNoQueue (flags : Nat) : Bool := (flags / 4) % 2 == 1
-
-def mkOwner (c : ConnId) (flags : Nat) : Owner := { conn := c, allowRepl := flagAllow flags, noQueue := flagNoQueue flags }
 
 def addOwned (b : Bus) (c : ConnId) (n : Bytes) : Bus := b.updConn c fun x => { x with owned := x.owned ++ [n] }
 /-- `_dbus_list_remove_last (&d->services_owned, service)` -/
 def removeLast (l : List Bytes) (n : Bytes) : List Bytes := (l.reverse.erase n).reverse
 def dropOwned (b : Bus) (c : ConnId) (n : Bytes) : Bus := b.updConn c fun x => { x with owned := removeLast x.owned n }
 
-/-- insert after the first element -/
-def insertSecond (o : Owner) : List Owner → List Owner
-  | [] => [o]
-  | p :: rest => p :: o :: rest
+/-- keep every connection's `services_owned` in step with the queue of `n` changing from `os` to `os'` -/
+def syncOwned (b : Bus) (n : Bytes) (os os' : List Owner) : Bus :=
+  { b with conns := b.conns.map fun x =>
+      let was := os.any (·.conn == x.id)
+      let is := os'.any (·.conn == x.id)
+      if !was && is then { x with owned := x.owned ++ [n] }
+      else if was && !is then { x with owned := removeLast x.owned n }
+      else x }
 
-/-- `bus_service_add_owner` -/
-def addOwner (t : Tx) (n : Bytes) (c : ConnId) (flags : Nat) : Tx :=
+def connName (b : Bus) : Option ConnId → Bytes
+  | some c => b.uniqueOrEmpty c
+  | none => []
+
+def emitSig (n : Bytes) (t : Tx) : Sig → Tx
+  | .lost c => sigLost t c n
+  | .acquired c => sigAcquired t c n
+  | .changed old new => sigOwnerChanged t n (connName t.bus old) (connName t.bus new)
+
+/-- install the new queue of `n` and send the signals, in order -/
+def applyQueue (t : Tx) (n : Bytes) (os' : List Owner) (sigs : List Sig) : Tx :=
   let os := ownersOf t.bus n
-  let t := if os.isEmpty then sigAcquired t c n else t
-  let o := mkOwner c flags
-  if os.any (·.conn == c) then
-    let os' := if flagReplace flags then insertSecond o (os.filter (·.conn != c))
-               else os.map fun x => if x.conn == c then o else x
-    { t with bus := t.bus.setOwners n os' }
-  else
-    let os' := if !flagReplace flags || os.isEmpty then os ++ [o] else insertSecond o os
-    { t with bus := addOwned (t.bus.setOwners n os') c n }
-
-/-- `bus_registry_ensure`: a new name; NameOwnerChanged ("" → owner) then NameAcquired -/
-def ensureService (t : Tx) (n : Bytes) (c : ConnId) (flags : Nat) : Tx :=
-  let t := sigOwnerChanged t n [] (t.bus.uniqueOrEmpty c)
-  addOwner t n c flags
-
-/-- `bus_service_remove_owner` -/
-def removeOwner (t : Tx) (n : Bytes) (c : ConnId) : Tx :=
-  let os := ownersOf t.bus n
-  match os with
-  | [] => t
-  | p :: rest =>
-    if p.conn == c then
-      let t := sigLost t c n
-      let t := match rest with
-        | [] => sigOwnerChanged t n (t.bus.uniqueOrEmpty c) []
-        | q :: _ =>
-          let t := sigOwnerChanged t n (t.bus.uniqueOrEmpty c) (t.bus.uniqueOrEmpty q.conn)
-          sigAcquired t q.conn n
-      { t with bus := dropOwned (t.bus.setOwners n rest) c n }
-    else
-      { t with bus := dropOwned (t.bus.setOwners n (os.filter (·.conn != c))) c n }
-
-/-- `bus_service_swap_owner`: the primary owner steps down to second place -/
-def swapOwner (t : Tx) (n : Bytes) (c : ConnId) : Tx :=
-  match ownersOf t.bus n with
-  | p :: q :: rest =>
-    let t := sigLost t c n
-    let t := sigOwnerChanged t n (t.bus.uniqueOrEmpty c) (t.bus.uniqueOrEmpty q.conn)
-    let t := sigAcquired t q.conn n
-    { t with bus := t.bus.setOwners n (q :: p :: rest) }
-  | _ => t
-
-def REPLY_PRIMARY := 1
-def REPLY_IN_QUEUE := 2
-def REPLY_EXISTS := 3
-def REPLY_ALREADY := 4
-def RELEASED := 1
-def NON_EXISTENT := 2
-def NOT_OWNER := 3
+  let t := sigs.foldl (emitSig n) t
+  { t with bus := syncOwned (t.bus.setOwners n os') n os os' }
 
 def nOwned (b : Bus) (c : ConnId) : Nat := match b.conn? c with | some x => x.owned.length | none => 0
 
@@ -425,22 +237,8 @@ def acquire (t : Tx) (c : ConnId) (n : Bytes) (flags : Nat) : Tx × Except Err N
     if !canOwn rules n then (t, .error .accessDenied)
     else if nOwned t.bus c ≥ t.bus.limits.maxNames then (t, .error .limitsExceeded)
     else
-      match ownersOf t.bus n with
-      | [] => (ensureService t n c flags, .ok REPLY_PRIMARY)
-      | p :: rest =>
-        if p.conn == c then
-          ({ t with bus := t.bus.setOwners n (mkOwner c flags :: rest) }, .ok REPLY_ALREADY)
-        else if flagNoQueue flags && (!p.allowRepl || !flagReplace flags) then
-          let os := p :: rest
-          if os.any (·.conn == c) then
-            ({ t with bus := dropOwned (t.bus.setOwners n (os.filter (·.conn != c))) c n }, .ok REPLY_EXISTS)
-          else (t, .ok REPLY_EXISTS)
-        else if !flagNoQueue flags && (!flagReplace flags || !p.allowRepl) then
-          (addOwner t n c flags, .ok REPLY_IN_QUEUE)
-        else
-          let t := addOwner t n c flags
-          let t := if p.noQueue then removeOwner t n p.conn else swapOwner t n p.conn
-          (t, .ok REPLY_PRIMARY)
+      let (os', code, sigs) := qAcquire (ownersOf t.bus n) c flags
+      (applyQueue t n os' sigs, .ok code)
 
 /-- `bus_registry_release_service` -/
 def release (t : Tx) (c : ConnId) (n : Bytes) : Tx × Except Err Nat :=
@@ -448,11 +246,18 @@ def release (t : Tx) (c : ConnId) (n : Bytes) : Tx × Except Err Nat :=
   else if n.head? == some 0x3a then (t, .error .invalidArgs)
   else if n == BUS_NAME then (t, .error .invalidArgs)
   else
-    match ownersOf t.bus n with
-    | [] => (t, .ok NON_EXISTENT)
-    | os =>
-      if !os.any (·.conn == c) then (t, .ok NOT_OWNER)
-      else (removeOwner t n c, .ok RELEASED)
+    let (os', code, sigs) := qRelease (ownersOf t.bus n) c
+    (applyQueue t n os' sigs, .ok code)
+
+/-- `bus_service_remove_owner` as used by the disconnect path -/
+def removeOwner (t : Tx) (n : Bytes) (c : ConnId) : Tx :=
+  let (os', sigs) := qRemove (ownersOf t.bus n) c
+  applyQueue t n os' sigs
+
+/-- `bus_registry_ensure` for the fresh unique name at Hello -/
+def ensureService (t : Tx) (n : Bytes) (c : ConnId) (flags : Nat) : Tx :=
+  let (os', sigs) := qEnsure c flags
+  applyQueue t n os' sigs
 
 /-! ### unique names -/
 
